@@ -111,6 +111,9 @@ def extra_cases():
                 if kind == "okp" and how == "jwk":
                     continue            # the ECDH-ES algorithms take an OKP key as a Key object only
                 out.append({"op": "jwe_keyops", "alg": alg, "kind": kind, "opts": opts, "how": how})
+    for opts in ({}, {"use": "enc"}, {"use": "sig"}, {"key_ops": ["verify"]}, {"key_ops": ["sign"]}, {"key_ops": ["decrypt"]}, {"key_ops": ["sign", "verify"]}):
+        for kind in ("rsa", "rsa_d", "ec"):
+            out.append({"op": "jws_keyops", "kind": kind, "opts": opts})
     jwe_tokens = {"dir": ("dir", "A128CBC-HS256"), "A256KW": ("A256KW", "A128GCM")}
     for name, (alg, enc) in jwe_tokens.items():
         for allow in (["HS256"], ["HS256", "HS512"], [], ["RS256", "ES256"], "default", [alg], [enc], [alg, enc], ["HS256", alg, enc], ["A128KW", "A256GCM"]):
@@ -118,7 +121,7 @@ def extra_cases():
     return out
 
 
-JWE_OPS = [("A128KW", "oct16"), ("A256KW", "oct32"), ("A128GCMKW", "oct16"), ("dir", "oct16"), ("RSA-OAEP", "rsa"), ("RSA1_5", "rsa"), ("ECDH-ES", "ec"), ("ECDH-ES+A128KW", "ec"),
+JWE_OPS = [("RSA-OAEP", "rsa_d"), ("A128KW", "oct16"), ("A256KW", "oct32"), ("A128GCMKW", "oct16"), ("dir", "oct16"), ("RSA-OAEP", "rsa"), ("RSA1_5", "rsa"), ("ECDH-ES", "ec"), ("ECDH-ES+A128KW", "ec"),
            ("ECDH-ES", "okp")]
 _JK = {}
 
@@ -132,7 +135,10 @@ def jwe_key(kind, opts, how):
         _JK["rsa"] = dict(JsonWebKey.generate_key("RSA", 2048, is_private=True).as_dict(is_private=True))
         _JK["ec"] = dict(JsonWebKey.generate_key("EC", "P-256", is_private=True).as_dict(is_private=True))
         _JK["okp"] = dict(JsonWebKey.generate_key("OKP", "X25519", is_private=True).as_dict(is_private=True))
-    d = {k: v for k, v in _JK[kind].items() if k != "kid"}
+    if kind == "rsa_d":        # an RSA private JWK without the CRT members (RFC 7518 §6.3.2: only "d" is required)
+        d = {k: v for k, v in _JK["rsa"].items() if k in ("kty", "n", "e", "d")}
+    else:
+        d = {k: v for k, v in _JK[kind].items() if k != "kid"}
     if how == "jwk":
         return dict(d, **opts)
     return JsonWebKey.import_key(d, dict(opts))
@@ -154,7 +160,24 @@ def impl_jwe_keyops(c):
     return {"encrypt": enc, "decrypt": dec}
 
 
+def impl_jws_keyops(c):
+    J = JsonWebSignature()
+    alg = "ES256" if c["kind"] == "ec" else "RS256"
+    def attempt(f):
+        try:
+            return "ok", f()
+        except Exception as e:
+            return type(e).__name__, None
+    s_, tok = attempt(lambda: J.serialize_compact({"alg": alg}, b"x", jwe_key(c["kind"], c["opts"], "jwk")))
+    if tok is None:
+        tok = J.serialize_compact({"alg": alg}, b"x", jwe_key(c["kind"], {}, "jwk"))
+    v_, _ = attempt(lambda: J.deserialize_compact(tok, jwe_key(c["kind"], c["opts"], "jwk")))
+    return {"sign": s_, "verify": v_}
+
+
 def impl_extra(c):
+    if c["op"] == "jws_keyops":
+        return impl_jws_keyops(c)
     if c["op"] == "jwe_keyops":
         return impl_jwe_keyops(c)
     from authlib.jose import JsonWebToken, JsonWebEncryption, jwt as default_jwt
@@ -307,7 +330,7 @@ ERR = [(je.MissingAlgorithmError, "missing_algorithm"), (je.UnsupportedAlgorithm
 def impl(c):
     if c["op"] == "confusion":
         return impl_confusion(c)
-    if c["op"] in ("kidtype", "jwe_allow", "callable", "jwe_keyops"):
+    if c["op"] in ("kidtype", "jwe_allow", "callable", "jwe_keyops", "jws_keyops"):
         return impl_extra(c)
     tok, header = make_token(c)
     arg = c["arg"]
@@ -382,7 +405,7 @@ def model_line(c):
         if "key_ops" in c["opts"]:
             line["key_ops"] = c["opts"]["key_ops"]
         return line
-    if c["op"] in ("kidtype", "jwe_allow", "callable"):
+    if c["op"] in ("kidtype", "jwe_allow", "callable", "jws_keyops"):
         return None
     if c["op"] == "confusion":
         return {"op": "oct_import", "raw": c["raw"]}
@@ -464,6 +487,16 @@ def oracle(c, out):
         if out["accepted"] and not ok_expected:
             v.append((f"header kid {c['hkid']!r} selected a key of the set with kids {c['kids']} ({c['form']}): no member has that kid", {"kind": "kid-type-confusion", "form": c["form"]}))
         return v
+    if c["op"] == "jws_keyops":
+        opts = c["opts"]
+        for side in ("sign", "verify"):
+            permitted = opts.get("use") in (None, "sig") and ("key_ops" not in opts or side in opts["key_ops"])
+            done = out[side] == "ok"
+            if done and not permitted:
+                v.append((f"{side} performed with a {c['kind']} JWK restricted to {opts}", {"kind": "restriction-ignored", "family": "jws-" + c["kind"], "side": side}))
+            if not done and permitted:
+                v.append((f"{side} refused ({out[side]}) although the {c['kind']} JWK's restriction {opts} permits it", {"kind": "refused-within-policy", "alg": c["kind"], "form": "jws-" + side}))
+        return v
     if c["op"] == "jwe_keyops":
         fam = "dir" if c["alg"] == "dir" else "ecdh" if c["alg"].startswith("ECDH") else "wrap"
         side_ops = {"dir": {"encrypt": {"encrypt"}, "decrypt": {"decrypt"}}, "wrap": {"encrypt": {"wrapKey"}, "decrypt": {"unwrapKey"}},
@@ -510,6 +543,8 @@ def oracle(c, out):
 def classify(c, out):
     if c["op"] == "jwe_keyops":
         return f"jwe_keyops/{c['alg']}/{out['encrypt']}/{out['decrypt']}"
+    if c["op"] == "jws_keyops":
+        return f"jws_keyops/{c['kind']}/{out['sign']}/{out['verify']}"
     if c["op"] in ("kidtype", "jwe_allow", "callable"):
         return c["op"] + "/" + ("accepted" if out["accepted"] else "refused")
     if c["op"] == "confusion":
